@@ -251,7 +251,17 @@ def r18b(model, ctx):
     fn = model.func_expanded(f"{IO}::Buffer.elaborate", depth=3)
     em = ElabModel(fn)
     t = unparse(fn)
-    ok = "invert = sum((bit << idx for (idx, bit) in enumerate(self._port.invert)))" in t.replace("for idx, bit in", "for (idx, bit) in")
+    ok = False
+    for st in ast.walk(fn):
+        # invert = sum(B << I for I, B in enumerate(self._port.invert)), whatever the two loop variables are called
+        if isinstance(st, ast.Assign) and unparse(st.targets[0]) == "invert" and isinstance(st.value, ast.Call) and \
+                dotted(st.value.func) == "sum" and len(st.value.args) == 1 and isinstance(st.value.args[0], (ast.GeneratorExp, ast.ListComp)):
+            g = st.value.args[0]
+            if len(g.generators) == 1 and not g.generators[0].ifs and unparse(g.generators[0].iter) == "enumerate(self._port.invert)" and \
+                    isinstance(g.generators[0].target, ast.Tuple) and len(g.generators[0].target.elts) == 2 and \
+                    all(isinstance(e_, ast.Name) for e_ in g.generators[0].target.elts):
+                i_, b_ = (e_.id for e_ in g.generators[0].target.elts)
+                ok = unparse(g.elt) in (f"{b_} << {i_}", f"{b_} * (1 << {i_})", f"{b_} * 2 ** {i_}")
     ctx.check(ok, R, "Buffer:invert-mask", "mask bit idx = invert flag of port bit idx", "the inversion mask must place the flag of port bit idx "
               "at bit idx", f"{IO}:{fn.lineno}")
     # o_inv / i_inv definitions
@@ -280,8 +290,11 @@ def r18b(model, ctx):
                   f"pair from ~o_inv), inputs must go to i_inv, and the enable must be self.oe — using self.o / self.i directly "
                   f"skips the inversion", f"{IO}:{c.lineno}")
     # direction -> which legs
-    ok = t.count("IOBufferInstance(self._port.n, o=~o_inv, oe=self.oe)") == 2 and "IOBufferInstance(self._port.io, o=o_inv, oe=self.oe, i=i_inv)" in t \
-        and "IOBufferInstance(self._port.p, o=o_inv, oe=self.oe, i=i_inv)" in t
+    # keyword order is free: compare (port, {keyword: value}) of the constructions
+    shapes = [(unparse(c.args[0]), tuple(sorted((k.arg, unparse(k.value)) for k in c.keywords))) for c in insts if c.args]
+    ok = shapes.count(("self._port.n", (("o", "~o_inv"), ("oe", "self.oe")))) == 2 and \
+        ("self._port.io", (("i", "i_inv"), ("o", "o_inv"), ("oe", "self.oe"))) in shapes and \
+        ("self._port.p", (("i", "i_inv"), ("o", "o_inv"), ("oe", "self.oe"))) in shapes
     ctx.check(ok, R, "Buffer:legs", "bidirectional buffers connect i, o and oe; differential outputs drive both legs",
               "bidirectional buffers must connect i, o and oe, and differential outputs must drive both legs", f"{IO}:{fn.lineno}")
     # simulation port
